@@ -68,7 +68,10 @@ func builtinFunc(name string) func(js JSWriter, args []ast.Node) {
 }
 
 func funcIsNonnull(js JSWriter, args []ast.Node) {
-	js.Write(args[0], "!= null")
+	// (parenthesised as a whole: the comparison binds loosely, and what the
+	// generator writes next to it - the + of {css e, name}, a unary minus -
+	// must apply to its result.)
+	js.Write("(", args[0], " != null)")
 }
 
 func funcLength(js JSWriter, args []ast.Node) {
@@ -108,7 +111,7 @@ func funcRandomInt(js JSWriter, args []ast.Node) {
 }
 
 func funcStrContains(js JSWriter, args []ast.Node) {
-	js.Write("(", args[0], ").indexOf(", args[1], ") != -1")
+	js.Write("((", args[0], ").indexOf(", args[1], ") != -1)")
 }
 
 func funcHasData(js JSWriter, args []ast.Node) {
